@@ -386,13 +386,16 @@ CopyCb(ret, dig) == Cb([name |-> "copy.read", ret |-> ret, dig |-> dig])
 \* the statement function returns the read's error
 Propagates == "onerr" \in DOMAIN Op /\ Op.onerr = "ret"
 
-CopyAbort(ev) ==
+\* (the error a handler passes on is the reader's: for a message over the size limit it is the message-size
+\* error - SQLSTATE 54000, not fatal - like outside COPY)
+CopyAbortE(ev, e) ==
     IF Propagates
     THEN /\ h' = NoH
          /\ IF h.mode = "simple"
-            THEN emit' = ev \o <<Rv(ErrAny), Rv(MsgReady)>> /\ hq' = <<>> /\ UNCHANGED skip
-            ELSE emit' = ev \o <<Rv(ErrAny)>> /\ skip' = TRUE /\ UNCHANGED hq
+            THEN emit' = ev \o <<Rv(e), Rv(MsgReady)>> /\ hq' = <<>> /\ UNCHANGED skip
+            ELSE emit' = ev \o <<Rv(e)>> /\ skip' = TRUE /\ UNCHANGED hq
     ELSE emit' = ev /\ h' = [Adv(h) EXCEPT !.copy = FALSE] /\ UNCHANGED <<hq, skip>>
+CopyAbort(ev) == CopyAbortE(ev, ErrAny)
 
 HCopyRead ==
     /\ Running /\ Op.op = "copyread" /\ h.copy /\ inq # <<>> /\ Head1.t # "Huge"
@@ -404,7 +407,7 @@ HCopyRead ==
        ELSE \* CopyFail or any non-COPY message: a non-nil, non-EOF error; the
             \* read itself reports nothing to the client - the abort is reported
             \* once, when the statement function returns the error
-            CopyAbort(<<CopyCb("err", "")>>)
+            CopyAbortE(<<CopyCb("err", "")>>, IF m.t = "Big" THEN ErrTooBig ELSE ErrAny)
     /\ UNCHANGED <<cfg, phase, ssl, mwi, cparams, eof, faulted, stmts, portals>>
 
 \* E7 inside COPY: a message declaring a gigantic length.  Its body is
